@@ -53,6 +53,22 @@ def check_belt(h):
         h.violate("C12", "order", f"items entered in order {[r.name for r in recs]} but were handed to successive retrievals in order {[r.name for r in gets]}", feat=lab, extra=octx)
     offs = sorted([r for r in recs if r.avail_t is not None], key=lambda r: r.avail_seq)
     if [r.name for r in offs] != [r.name for r in recs][:len(offs)]:
+        # circumstances of the first overtaking: y reached the exit before x although x entered first
+        Sx = [(r.avail_t, r.got_t if r.got_t is not None else now) for r in recs if r.avail_t is not None]
+        Sx = [(a, b) for a, b in Sx if b > a]
+        y = next(r for i, r in enumerate(offs) if r.name != recs[i].name)
+        x = recs[[r.name for r in offs].index(y.name)]
+        def rel(r):
+            e = "before"
+            for a, b in Sx:
+                if abs(r.put_t - a) <= EPS:
+                    e = "at-stall-start"
+                elif a < r.put_t < b:
+                    e = "during-stall"
+            return e
+        p1 = any(abs(x.put_t + slot - a) <= EPS for a, b in Sx)
+        lead = "same-instant" if y.avail_t == x.avail_t or x.avail_t is None and False else ("by<slot" if x.avail_t is not None and x.avail_t - y.avail_t < slot - EPS else "by>=slot")
+        octx += f",overtaken-entry={rel(x)},overtaker-entry={rel(y)},lead={lead}"
         h.violate("C12", "offer-order", f"items entered in order {[r.name for r in recs]} but reached the exit in order {[r.name for r in offs]}", feat=lab, extra=octx)
     for a, b in zip(recs, recs[1:]):
         if b.put_t - a.put_t < slot - EPS:
@@ -91,12 +107,25 @@ def check_belt(h):
     if any(x[0] == "grant" and x[4] == "p" and not x[5] for x in h.hist):
         h.probe("belt_entry_waited_for_spacing")
     if not acc:
+        aseq = {x[3]: i for i, x in enumerate(h.hist) if x[0] == "avail"}       # position in the history = exact order
+        gseq = {x[3]: i for i, x in enumerate(h.hist) if x[0] == "grant"}
         for r in recs:
-            for a, b in S:
-                if a + EPS < r.put_t < b - EPS:
-                    moving = sum(1 for q in recs if q.put_t < r.put_t and (q.avail_t is None or q.avail_t > r.put_t))
-                    h.violate("C13", "nonacc-admission", f"{r.name} was admitted at {r.put_t} while the head item was waiting at the exit during [{a}, {b})", feat=lab,
-                              extra=f",moving-items={'0' if moving == 0 else '>0'}")
+            for q in recs:
+                if q.avail_t is None or q is r:
+                    continue
+                a, b = q.avail_t, (q.got_t if q.got_t is not None else now)
+                if not b > a:
+                    continue
+                inside = a + EPS < r.put_t < b - EPS
+                # in the very instant the head reached the exit: only if the space reservation was *granted* in a later
+                # kernel event than the one in which the head became ready (the order of same-instant events is exact)
+                tok = next((x[4] for x in h.hist if x[0] == "put" and x[3] == r.name), None)
+                at_start_after = (abs(r.put_t - a) <= EPS and tok in gseq and q.name in aseq and gseq[tok] > aseq[q.name]
+                                  and h.toks[tok].granted_at == r.put_t)
+                if inside or at_start_after:
+                    moving = sum(1 for z in recs if z.put_t < r.put_t and (z.avail_t is None or z.avail_t > r.put_t))
+                    h.violate("C13", "nonacc-admission", f"{r.name} was admitted at {r.put_t} while the head item {q.name} was waiting at the exit during [{a}, {b})", feat=lab,
+                              extra=f",moving-items={'0' if moving == 0 else '>0'},{'inside-stall' if inside else 'granted-in-stall-start-instant-after-head-arrived'}")
                     break
         for r in recs:
             if r.avail_t is None:
